@@ -18,12 +18,67 @@ ASSUMPTIONS = [
 ]
 
 
+def run_kernels(tier, rep):
+    """Attribute-validation and YAML-structure kernels (harness/c17_kernels.py)."""
+    import contextlib
+    import io
+    from engines.shadowsym import driver
+    from harness import c17_kernels as ck
+    specs, labels = ck.specs(tier)
+    with contextlib.redirect_stdout(io.StringIO()):
+        accs = driver.explore_many(specs, split_depth=2, time_budget_s=1200, max_decisions=20000)
+        tw = driver.explore(("harness.c17_kernels", "make_attr", dict(kind="arg", shape=1, nattr=1, twin=True)), nworkers=1)
+    total = driver.Acc()
+    for lab, a in zip(labels, accs):
+        total.merge(a)
+        for msg in a.inconclusive:
+            rep.inconc("%s: %s" % (lab, msg))
+    if not (tw.stats.paths > 0 and tw.nviol == tw.stats.paths and not tw.inconclusive):
+        rep.inconc("attribute kernel reachability twin failed")
+    known = checklib.load_known(PID)
+    groups = {}
+    for v in total.violations:
+        groups.setdefault(v["_vkey"], []).append(v)
+    confirmed = 0
+    for key, vs in sorted(groups.items()):
+        v = vs[0]
+        with contextlib.redirect_stdout(io.StringIO()):
+            ok, detail = ck.confirm(v)
+        if not ok:
+            rep.inconc("kernel counterexample (%s) did not reproduce: %r" % (key, detail))
+            continue
+        confirmed += 1
+        kf = [k for k in known if k.get("key") == key and k.get("status") == "known"]
+        if kf:
+            rep.known_finding("%s (e.g. %s; %d paths)" % (kf[0]["what_fails"], json.dumps(v.get("fields") or v.get("decl")), total.vcount.get(key, 1)))
+            continue
+        path = checklib.write_replay(PID, "kernel_%03d" % confirmed, v)
+        rep.violation(path, "%s  input=%s  [%d paths; key=%s]" % (v["what"], json.dumps(v.get("fields") or v.get("decl")), total.vcount.get(key, 1), key))
+    samples = []
+    for cls, lst in sorted(total.samples.items()):
+        s0 = lst[0]
+        samples.append({"class": cls, "input": s0.get("decl") or s0.get("fields")})
+    return {"attribute_and_yaml_kernels": {
+        "paths": total.stats.paths, "queries": total.stats.queries, "solver_s": round(total.stats.solver_s, 2),
+        "outcome_classes": dict(total.counts), "violation_classes_confirmed": confirmed,
+        "attribute_candidates": len(ck.ATTR_CANDIDATES), "argument_shapes": ck.ARG_SHAPES, "result_shapes": ck.RESULT_SHAPES,
+        "yaml_fields": ["/".join(p) for p, _ in ck.FIELDS], "yaml_shapes_per_field": ck.WRONG,
+        "samples": samples[:10],
+        "functions_encoded": ["shroud.generate.VerifyAttrs.check_fcn_attrs/check_arg_attrs/check_var_attrs/check_common_attrs/"
+                              "check_intent_attr/check_deref_attr/check_implied_attrs", "shroud.generate.check_implied / CheckImplied",
+                              "shroud.ast.clean_dictionary, add_declarations, create_library_from_dictionary, LibraryNode.__init__"]}}
+
+
 def main():
     tier, seed, rp = checklib.tier_and_seed()
     if rp:
         with open(rp) as f:
             w = json.load(f)
-        ok, detail = pe.confirm(PID, w)
+        if w.get("kernel") in ("attrs", "yaml"):
+            from harness import c17_kernels as ck
+            ok, detail = ck.confirm(w)
+        else:
+            ok, detail = pe.confirm(PID, w)
         print(json.dumps(detail, indent=1, default=str))
         if ok:
             print("VIOLATION property=%s replay=%s" % (PID, rp))
@@ -31,7 +86,8 @@ def main():
         print("property holds on this input")
         return 0
     rep = checklib.Report(PID)
-    cov = pe.run_check(PID, tier, seed, rep)
+    extra = run_kernels(tier, rep)
+    cov = pe.run_check(PID, tier, seed, rep, extra_cov=extra)
     checklib.write_evidence(PID, tier, seed, "model_checking", cov, ASSUMPTIONS, rep.wall(), len(rep.violations))
     return rep.finish()
 
